@@ -5,7 +5,11 @@
  R3 the gate (and the duplicate-id check) dominates every model computation of get_estimates and its true branch always raises;
  R4 every dispatched estimator defines its minimum, and the minimum / training-fraction formulas are the documented ones;
  R5 duplicate reporting unit ids raise ModelClientException (the base class, not the not-enough-subunits subclass).
-Not decided: the arithmetic clause (split leaves >= 1 training unit, quantile <= 1 for all (alpha, n)) - see DESIGN.md O1.
+ R6 split arithmetic, structural part: the number of training rows is  max(floor(n_train * fraction), 1)  with n_train the row
+    count of the reporting frame - never 0 (an empty training set cannot be fit), the calibration rows are the rest, and the
+    conformal quantile level is alpha (1 + 1/n_cal).  That these give n_cal >= 1 and a level < 1 for every n >= minimum is
+    arithmetic over all (alpha, n): hand proof in DESIGN.md appendix B; here only that the code still is the formula the proof
+    is about.
 """
 from __future__ import annotations
 
@@ -226,6 +230,36 @@ def check(ctx):
         ctx.ob("C14.R4.frac-args", f"{cls.name}|conf_frac forwarded", ok, f.where(),
                "the split receives this fraction, this alpha and the reporting frame" if ok
                else f"split called with {ir.show(fwd[0], maxdepth=4)}")
+
+    # R6 split arithmetic (structural part) -------------------------------------------------------
+    from ..unitmodel import CM
+    cm_cls = repo.cls(CM, "ConformalElectionModel")
+    bf = ctx.fn(CM, "ConformalElectionModel.get_unit_prediction_interval_bounds")
+    bs = ctx.builder().summarize(bf, self_cls=cm_cls)
+    SELF_ = ("param", "self")
+    trains = []
+    pool = [bs.ret()] + [t_ for _, _, t_, _ in bs.assigns] + [t_ for _, t_, _ in bs.effects]
+    for t in (x for r_ in pool for x in ir.walk(r_)):
+        # reporting_units_shuffled[:TRAIN]
+        if t[0] == "sub" and t[2][0] == "slice" and t[2][1] == ("const", None) and t[2][3] == ("const", None) and t[2][2] != ("const", None):
+            if t[2][2] not in trains and any(x[0] == "call" and x[1][0] == "attr" and x[1][2] == "sample" for x in ir.walk(t[1])):
+                trains.append(t[2][2])
+    ctx.sites("C14.R6", len(trains), 1, "training-row count of the calibration split")
+    nz = symexpr.Normalizer(leaf=lambda x: "n_train" if x == ("attr", SELF_, "n_train") else (x[1] if x[0] == "param" else None))
+    want_tr = symexpr.Normalizer().norm(symexpr.parse("max(floor(n_train * conf_frac), 1)"))
+    for tr in trains:
+        got_tr = nz.norm(tr)
+        ok = got_tr == want_tr
+        ctx.ob("C14.R6.train-rows", f"{bf.qualname}|at least one training unit", ok, bf.where(),
+               "training rows = max(floor(n_train * fraction), 1): the training set is never empty" if ok
+               else f"training rows = {got_tr.key()}: at n = minimum the fraction rounds to ~0 and floor(..) = 0 leaves an empty training "
+                    f"set (ZeroDivisionError in the solver); documented {want_tr.key()}")
+    # n_train is the row count of the reporting frame of this call
+    nt = [w for w in util.attr_writes(repo, "n_train")]
+    okn = bool(nt) and all(isinstance(v, ast.Subscript) and ast.unparse(v) == "reporting_units.shape[0]" for _, _, v, _ in nt)
+    ctx.ob("C14.R6.n-train", "ConformalElectionModel|n_train = number of reporting units", okn,
+           nt[0][0].where(nt[0][3]) if nt else bf.where(),
+           "n_train is set from reporting_units.shape[0] only" if okn else f"n_train written as {[ast.unparse(v) for _, _, v, _ in nt]}")
 
     # R5 -------------------------------------------------------------------------------------
     ctx.sites("C14.R5", len(dup), 1, "raise ModelClientException (duplicate ids) in get_estimates")
